@@ -175,3 +175,46 @@ Proof.
     + pose proof (blow_time_increasing r row2 place2 row2 place1 Hg H2 (or_intror (conj eq_refl P))). lra.
   - pose proof (blow_time_increasing r row2 place2 row1 place1 Hg H2 (or_introl L)). lra.
 Qed.
+
+(* ------------------------------------------------------------------ regressing relative to a datapoint *)
+(* The product (since the repair of the ill-conditioned regression) subtracts the first datapoint from
+   every blow time and real time, regresses, and shifts the intercept back; the model regresses on the
+   raw values.  In exact arithmetic the two are the same function, for ANY reference point. *)
+Definition centre_point (x0 y0 : Q) (p : datapoint) : datapoint := let '(x, y, w) := p in (x - x0, y - y0, w).
+
+Lemma centre_sums x0 y0 d :
+  Sw (map (centre_point x0 y0) d) == Sw d
+  /\ Sx (map (centre_point x0 y0) d) == Sx d - x0 * Sw d
+  /\ Sy (map (centre_point x0 y0) d) == Sy d - y0 * Sw d
+  /\ Sxx (map (centre_point x0 y0) d) == Sxx d - 2 * x0 * Sx d + x0 * x0 * Sw d
+  /\ Sxy (map (centre_point x0 y0) d) == Sxy d - x0 * Sy d - y0 * Sx d + x0 * y0 * Sw d.
+Proof.
+  induction d as [|[[x y] w] d IH]; cbn [map centre_point Sw Sx Sy Sxx Sxy].
+  - repeat split; ring.
+  - destruct IH as [A [B [C [D E]]]]. rewrite A, B, C, D, E. repeat split; ring.
+Qed.
+
+Lemma centre_det x0 y0 d : det (map (centre_point x0 y0) d) == det d.
+Proof. destruct (centre_sums x0 y0 d) as [A [B [C [D E]]]]. unfold det. rewrite A, B, D. ring. Qed.
+
+Theorem centred_regression x0 y0 d a' b' :
+  calculate_regression (map (centre_point x0 y0) d) = Some (a', b') ->
+  exists a b, calculate_regression d = Some (a, b) /\ a == y0 + (a' - b' * x0) /\ b == b'.
+Proof.
+  intros H'. destruct (regression_closed_form _ _ _ H') as [Hd' [Ha' Hb']].
+  assert (Hd : ~ det d == 0) by (rewrite <- (centre_det x0 y0 d); exact Hd').
+  destruct (regression_defined d Hd) as [a [b H]]. exists a, b. split; [exact H|].
+  destruct (regression_closed_form _ _ _ H) as [_ [Ha Hb]].
+  pose proof (centre_det x0 y0 d) as Ed.
+  destruct (centre_sums x0 y0 d) as [A [B [C [D E]]]].
+  rewrite Ha', Hb', Ha, Hb, Ed, A, B, C, D, E. unfold det in *. split; field; exact Hd.
+Qed.
+
+(* ... and conversely the centred regression is defined whenever the raw one is *)
+Theorem centred_regression_defined x0 y0 d a b :
+  calculate_regression d = Some (a, b) ->
+  exists a' b', calculate_regression (map (centre_point x0 y0) d) = Some (a', b').
+Proof.
+  intros H. destruct (regression_closed_form _ _ _ H) as [Hd _].
+  apply regression_defined. rewrite centre_det. exact Hd.
+Qed.
